@@ -32,6 +32,11 @@ CHECKS.update({
                    "deterministic simulation with exhaustive single-fault injection per sampled history (fail-before / reply-lost on every store call) and seeded completion order", level="fault_enumeration", ref="§7 C16"),
 })
 
+CHECKS["C20"] = ("flight", "exploration",
+    "deterministic simulation of concurrent callers on a single-threaded paused-clock tokio runtime with seeded yields/sleeps at guarded points between lock sections; history oracle over invoke/return events",
+    "Real singleflight Group; callers, arrival times, task durations, task outcomes (value/error/panic) and the scheduling decisions at five guarded yield points between the lock sections of Group::work are drawn from the seed; the recorded history (event-sequence-stamped invoke/return/task-start/task-end) is checked: one task per flight, every caller gets the outcome of a flight of its key alive during its call, a call after the owner returned gets a new flight, nobody hangs (watchdog at quiescence).",
+    "Trusted: tokio primitives. Multi-threaded interleavings are emulated at lock-section granularity (H5), not at atomic-instruction granularity.", "§7 C20")
+
 NOT_APPLICABLE = {
     "C06": "Every clause is a pure function of its input (hash identities, text-form round trips, avalanche); there is no schedule, clock, fault or history for a simulator to control, so deterministic simulation does not apply (DESIGN §7 C06). The independent hash implementations are exercised as oracles of C02/C03/C08.",
 }
